@@ -23,8 +23,13 @@ type replacerV struct{ pairs []Str }
 
 func init() {
 	stubs = map[string]stubFn{
-		"fmt.Sprintf":  stubSprintf,
-		"fmt.Errorf":   func(p *path, c *frame, a []value) value { return p.mkErrorIface(stubSprintf(p, c, a).(Str)) },
+		"fmt.Sprintf": stubSprintf,
+		"fmt.Errorf": func(p *path, c *frame, a []value) value {
+			if f, ok := a[0].(Str); ok && f.IsConcrete() && strings.Contains(f.Concrete(), "%w") {
+				a = append([]value{p.mkStr(strings.ReplaceAll(f.Concrete(), "%w", "%v"))}, a[1:]...)
+			}
+			return p.mkErrorIface(stubSprintf(p, c, a).(Str))
+		},
 		"fmt.Sprint":   stubSprint,
 		"fmt.Sprintln": func(p *path, c *frame, a []value) value { return concatStr(stubSprint(p, c, a).(Str), p.mkStr("\n")) },
 		"fmt.Println":  stubNop,
